@@ -42,6 +42,22 @@ var _ = func() bool {
 		sharedCache.BinaryContentID = verifUnhex(a[7])
 		return "ok"
 	}
+	// ldx <-X value>... : the top-level command was given -ldflags="-X=v1 -X=v2 ..."
+	verifOps["ldx"] = func(a []string) string {
+		sharedCache.ForwardBuildFlags = nil
+		if len(a) > 0 {
+			var sb strings.Builder
+			sb.WriteString("-ldflags=")
+			for i, v := range a {
+				if i > 0 {
+					sb.WriteByte(' ')
+				}
+				sb.WriteString("-X=" + string(verifUnhex(v)))
+			}
+			sharedCache.ForwardBuildFlags = []string{sb.String()}
+		}
+		return "ok"
+	}
 	// pkg path garbleActionID(32 bytes)
 	verifOps["pkg"] = func(a []string) string {
 		p := &listedPackage{ImportPath: string(verifUnhex(a[0]))}
